@@ -39,6 +39,68 @@ where
     Some(lo)
 }
 
+/// Lower the Pyth price of bank `b` from where `mk`'s transaction is refused with `refused_code`
+/// to the exact integer price at which it is first accepted (geometric descent, then bisection on
+/// the integer price field). Every accepted probe on the way is judged by the monitors, so an
+/// acceptance on the wrong side of the threshold shows up. Leaves the price at the first accepted
+/// value; returns whether the boundary (two adjacent integer prices) was located.
+pub async fn price_threshold<F>(w: &mut World, m: &mut Mon, b: usize, signers: &[&Keypair], mk: F, refused_code: u32) -> bool
+where
+    F: Fn(&World) -> Vec<Instruction>,
+{
+    let k = match w.banks[b].oracle.clone() {
+        OracleD::Pyth(k) | OracleD::Venue { oracle: k, .. } => k,
+        _ => return false,
+    };
+    let base = w.pyth[&k];
+    let set = |w: &mut World, price: i64| {
+        let f = price as f64 / base.price.max(1) as f64;
+        let now = w.chain.now();
+        w.set_pyth(&k, PythPx { price, conf: (base.conf as f64 * f) as u64, ema: ((base.ema as f64 * f) as i64).max(1), ema_conf: (base.ema_conf as f64 * f) as u64, publish_time: now, ..base });
+    };
+    let (mut hi, mut lo): (Option<i64>, Option<i64>) = (None, None);
+    let mut p = base.price;
+    for _ in 0..80 {
+        set(w, p);
+        let ixs = mk(w);
+        let o = w.probe(m, &ixs, signers).await;
+        if o.custom_code() == Some(refused_code) {
+            hi = Some(p);
+            if p <= 1 {
+                break;
+            }
+            p = ((p as f64) * 0.7) as i64;
+            p = p.max(1);
+        } else if o.ok() {
+            lo = Some(p);
+            break;
+        } else {
+            break;
+        }
+    }
+    let (mut hi, mut lo) = match (hi, lo) {
+        (Some(h), Some(l)) => (h, l),
+        _ => return false,
+    };
+    let mut steps = 0;
+    while hi - lo > 1 && steps < 64 {
+        steps += 1;
+        let mid = lo + (hi - lo) / 2;
+        set(w, mid);
+        let ixs = mk(w);
+        let o = w.probe(m, &ixs, signers).await;
+        if o.custom_code() == Some(refused_code) {
+            hi = mid;
+        } else if o.ok() {
+            lo = mid;
+        } else {
+            break;
+        }
+    }
+    set(w, lo);
+    hi - lo <= 1
+}
+
 #[derive(Clone, Copy)]
 pub enum SavedPx {
     Pyth(PythPx),
@@ -159,52 +221,23 @@ pub async fn liquidation(w: &mut World, m: &mut Mon, r: &mut R, lev: &Lev, lq: u
     let shock = pick(r, &[0.97f64, 0.9, 0.8, 0.6, 0.4]);
     scale_price_any(w, lev.ca, shock).await;
     let lk = w.auth_of(lq);
-    // keep lowering the collateral price until the account just becomes liquidatable
-    let pyth_key = match w.banks[lev.ca].oracle.clone() {
-        OracleD::Pyth(k) | OracleD::Venue { oracle: k, .. } => Some(k),
-        _ => None,
-    };
-    let (mut healthy_at, mut unhealthy_at): (Option<PythPx>, Option<PythPx>) = (None, None);
-    for _ in 0..14 {
-        let i = w.ix_liquidate(lq, lev.acct, lev.ca, lev.db, lk.pubkey(), 1);
-        let o = w.probe(m, &[i], &[&lk]).await;
-        if o.custom_code() == Some(crate::mon::err::HEALTHY_ACCOUNT) {
-            healthy_at = pyth_key.map(|k| w.pyth[&k]);
-            scale_price_any(w, lev.ca, pick(r, &[0.95f64, 0.9, 0.8])).await;
-        } else {
-            if o.ok() {
-                unhealthy_at = pyth_key.map(|k| w.pyth[&k]);
-            }
-            break;
-        }
-    }
-    // locate the exact price at which the account turns liquidatable: every accepted probe on the
-    // way is judged by the monitor, so an acceptance on the healthy side of zero shows up
-    if let (Some(k), Some(hp), Some(up)) = (pyth_key, healthy_at, unhealthy_at) {
-        let (mut hi, mut lo) = (hp.price, up.price);
-        let mut steps = 0;
-        while hi - lo > 1 && steps < 48 {
-            steps += 1;
-            let mid = lo + (hi - lo) / 2;
-            let f = mid as f64 / hp.price as f64;
-            let now = w.chain.now();
-            w.set_pyth(&k, PythPx { price: mid, conf: (hp.conf as f64 * f) as u64, ema: ((hp.ema as f64 * f) as i64).max(1), ema_conf: (hp.ema_conf as f64 * f) as u64, publish_time: now, ..hp });
-            let i = w.ix_liquidate(lq, lev.acct, lev.ca, lev.db, lk.pubkey(), 1);
-            let o = w.probe(m, &[i], &[&lk]).await;
-            if o.custom_code() == Some(crate::mon::err::HEALTHY_ACCOUNT) {
-                hi = mid;
-            } else if o.ok() {
-                lo = mid;
-            } else {
-                break;
-            }
-        }
-        if hi - lo <= 1 {
+    // lower the collateral price to the exact point where the account turns liquidatable
+    {
+        let (le, ca, db, lkp) = (lev.acct, lev.ca, lev.db, lk.pubkey());
+        if price_threshold(w, m, ca, &[&lk], |w| vec![w.ix_liquidate(lq, le, ca, db, lkp, 1)], crate::mon::err::HEALTHY_ACCOUNT).await {
             m.r.count("scen.liquidatable_price_boundary_found");
+        } else {
+            // non-Pyth collateral (or already liquidatable): coarse descent
+            for _ in 0..14 {
+                let i = w.ix_liquidate(lq, le, ca, db, lkp, 1);
+                let o = w.probe(m, &[i], &[&lk]).await;
+                if o.custom_code() == Some(crate::mon::err::HEALTHY_ACCOUNT) {
+                    scale_price_any(w, ca, pick(r, &[0.95f64, 0.9, 0.8])).await;
+                } else {
+                    break;
+                }
+            }
         }
-        let f = lo as f64 / hp.price as f64;
-        let now = w.chain.now();
-        w.set_pyth(&k, PythPx { price: lo, conf: (hp.conf as f64 * f) as u64, ema: ((hp.ema as f64 * f) as i64).max(1), ema_conf: (hp.ema_conf as f64 * f) as u64, publish_time: now, ..hp });
     }
     // make sure the liquidator can afford it
     for b in [lev.db, lev.ca] {
@@ -308,6 +341,15 @@ pub async fn receivership(w: &mut World, m: &mut Mon, r: &mut R, lev: &Lev, rece
         let _ = w.exec(m, &[i], &[&rk]).await;
         with_init = false;
     }
+    // the exact collateral price at which a receivership may start (empty bracket as the probe)
+    if r.gen_bool(0.6) {
+        scale_price_any(w, lev.ca, 1.0 / shock).await;
+        let rkc = clone_kp(&rk);
+        let tas2 = tas.clone();
+        if price_threshold(w, m, lev.ca, &[&rk], |w| receivership_ixs(w, le, &rkc, None, None, with_init, &tas2), crate::mon::err::HEALTHY_ACCOUNT).await {
+            m.r.count("scen.receivership_price_boundary_found");
+        }
+    }
     // empty bracket and missing pieces
     let ixs = receivership_ixs(w, le, &rk, None, None, with_init, &tas);
     let _ = w.probe(m, &ixs, &[&rk]).await;
@@ -329,8 +371,18 @@ pub async fn receivership(w: &mut World, m: &mut Mon, r: &mut R, lev: &Lev, rece
 
 /// Bankruptcy scenario: collateral becomes worthless, then the debt is written off.
 pub async fn bankruptcy(w: &mut World, m: &mut Mon, r: &mut R, lev: &Lev, g: usize) {
-    scale_price_any(w, lev.ca, 1e-9).await;
     let db = lev.db;
+    let saved = save_price(w, lev.ca);
+    {
+        // the exact collateral price at which the account counts as bankrupt
+        let admin = clone_kp(&w.groups[g].admin);
+        let (acct, apk) = (lev.acct, admin.pubkey());
+        if r.gen_bool(0.5) && price_threshold(w, m, lev.ca, &[&admin], |w| vec![w.ix_bankruptcy(acct, db, apk)], crate::mon::err::ACCOUNT_NOT_BANKRUPT).await {
+            m.r.count("scen.bankruptcy_price_boundary_found");
+        } else {
+            scale_price_any(w, lev.ca, 1e-9).await;
+        }
+    }
     // vary insurance relative to the debt
     let mode = r.gen_range(0..4);
     let iv = w.banks[db].k.iv;
@@ -372,7 +424,10 @@ pub async fn bankruptcy(w: &mut World, m: &mut Mon, r: &mut R, lev: &Lev, g: usi
     let i = w.ix_bankruptcy(lev.acct, db, admin.pubkey());
     let _ = w.exec(m, &[i], &[&admin]).await;
     // restore a sane collateral price for later scenarios
-    scale_price_any(w, lev.ca, 1e9).await;
+    match saved {
+        SavedPx::None => scale_price_any(w, lev.ca, 1e9).await,
+        sp => restore_price(w, lev.ca, sp),
+    }
 }
 
 /// C09 (chain side): doctor the oracle of the collateral or the debt bank (stale by +-1 s around
